@@ -81,6 +81,7 @@ def run(ctx, facts):
     C04._setsketch(ctx, facts)
     C04._exit_setsketch(ctx, facts)
     C04.regvalue_rule(ctx, facts)
+    C04.spacing_rule(ctx, facts)
     # the pruning bound must stay below every register, or draws that would raise a register are discarded
     from . import C05
     ctx.rule("LOWER", C05.RULES["LOWER"])
